@@ -25,7 +25,7 @@ BOUNDS = {"quick": "3 buses / 3 branches: parallel pair, reversed orientation; p
           "thorough": "+ triangle, + 4 branches; bfsw: + 6 more layouts incl. two meshed islands, loop behind a transformer, transformer fed from its to-side"}
 
 
-def _branch_bus(ctx, ft):
+def _branch_bus(ctx, ft, lean=False):
     from pandapower.pypower.idx_bus import GS, BS, BUS_I, bus_cols
     from pandapower.pypower.idx_brch import F_BUS, T_BUS, BR_R, BR_X, BR_B, BR_G, TAP, SHIFT, BR_STATUS, branch_cols, BR_G_ASYM, BR_B_ASYM
     nb, nl = 3, len(ft)
@@ -33,8 +33,9 @@ def _branch_bus(ctx, ft):
     branch = ctx.obj(np.zeros((nl, branch_cols)))
     for b in range(nb):
         bus[b, BUS_I] = b
-        bus[b, GS] = ctx.var(f"gs{b}", 0., 2.)
-        bus[b, BS] = ctx.var(f"bs{b}", -2., 2.)
+        if not lean:
+            bus[b, GS] = ctx.var(f"gs{b}", 0., 2.)
+            bus[b, BS] = ctx.var(f"bs{b}", -2., 2.)
     for k, (f, t) in enumerate(ft):
         branch[k, F_BUS], branch[k, T_BUS], branch[k, BR_STATUS] = f, t, 1
         branch[k, BR_R] = ctx.var(f"r{k}", 0.001, 1.)
@@ -42,7 +43,7 @@ def _branch_bus(ctx, ft):
         branch[k, BR_B] = ctx.var(f"b{k}", 0., 1.)
         branch[k, TAP] = ctx.var(f"tap{k}", 0.8, 1.2) if k != 1 else 0.0      # tap 0 means 'no transformer' in the ppc format
         branch[k, SHIFT] = [0., 30., -150., 0.][k]
-        if k == 0:
+        if k == 0 and not lean:
             branch[k, BR_G] = ctx.var(f"g{k}", 0., 1.)
             branch[k, BR_B_ASYM] = ctx.var(f"b_asym{k}", 0., 0.5)
             branch[k, BR_G_ASYM] = ctx.var(f"g_asym{k}", 0., 0.5)
